@@ -21,6 +21,10 @@
      stopped in the middle of its value while a writer needs the enlargement: the writer must stall, the mapping of the
      data file must stay, the released read must yield the committed value; the process is supervised (a SIGSEGV of the
      code under test is a verdict); recorded and validated by KVTrace.tla.
+(R)  restart: a db grown past one chunk is closed and reopened; the map must come back as persisted (KV!Crash, HeadroomKept) and
+     the first write - under the writer's own iterator - must have the room it had before.
+(L)  the letter of "no operation fails for lack of space": MC_KV_bigbatch / MC_KV_squeeze violate NoMapFull (no assumption on
+     callers); each counterexample is run on the real Store by one deterministic scenario (h_kv bigbatch / squeeze).
 (P)  probe: is the head-room checked in Store::batch() still there once the write lock is held?
 """
 import json, os, re, shutil, time
@@ -37,7 +41,14 @@ MC_ACTIONS = ["MBegin", "MBeginWait", "MAdmit", "MChild", "MCommitChild", "MDrop
 CARELESS = [("MC_KV_gateorder", "NoMapFull"),            # write_txn() before enter_tx()
             ("MC_KV_nestedmark", "NoHolderParked"),      # a nested close wipes the thread's mark
             ("MC_KV_nestedmark_dl", "deadlock"),         # ... and then nothing ever moves again
-            ("MC_KV_readcount", "NoRemapUnderTxn")]      # a plain read is not counted while it is in flight
+            ("MC_KV_readcount", "NoRemapUnderTxn"),      # a plain read is not counted while it is in flight
+            ("MC_KV_reopenclamp", "prop:HeadroomKept")]  # a restart clamps the map to the size of the data
+# the letter of the property ("no operation fails for lack of space", no assumption on callers): the code's policy - enlarge only
+# between batches, never under the caller's own transaction - cannot hold NoMapFull. TLC must find the violation; its
+# counterexample is then run on the real Store (a verdict only if reproduced there)
+LETTER = [("MC_KV_bigbatch", "NoMapFull"), ("MC_KV_squeeze", "NoMapFull")]
+BIGBATCH_SIG = "kv:batch:larger_than_headroom:mapfull"
+SQUEEZE_SIG = "kv:resize:own_iterator:squeezed_batch:mapfull"
 NESTED_SIG = "kv:nested:resize_deadlock:iterator_held"
 INFLIGHT_SIG = "kv:resize:inflight_read_not_counted"
 INFLIGHT_CRASH_SIG = "kv:resize:under_inflight_read:crash"
@@ -64,7 +75,7 @@ def model_check(cfgs):
     """All TLC runs of the specification itself: the property configurations (must hold, every action taken), the
     deadlock-freedom run and the careless variants (must fail in the expected way). Two runs at a time (3 + 1 workers)."""
     from concurrent.futures import ThreadPoolExecutor
-    jobs = [(c, "hold") for c in cfgs] + [("MC_KV_live", "live")] + CARELESS
+    jobs = [(c, "hold") for c in cfgs] + [("MC_KV_live", "live")] + CARELESS + LETTER
 
     BIG = ("MC_KV", "MC_KV_thorough", "MC_KV_wide", "MC_KV_reads")
 
@@ -95,11 +106,19 @@ def model_check(cfgs):
                 counts[k] = counts.get(k, 0) + v
         else:
             # anti-vacuity: the careless variant must break exactly the invariant that guards against it
-            got = r.deadlock if kind == "deadlock" else kind in " ".join(r.invariant_violated)
+            if kind == "deadlock":
+                got = r.deadlock
+            elif kind.startswith("prop:"):
+                got = kind[5:] in re.findall(r"Action property (\S+) is violated", r.out)
+            else:
+                got = kind in " ".join(r.invariant_violated)
             if not got:
                 print(r.out[-3000:])
-                raise ToolError("%s: the careless variant does not violate %s (vacuous gate model)" % (cfg, kind))
+                raise ToolError("%s: the variant does not violate %s (vacuous model)" % (cfg, kind))
             per[cfg] = {"expected_violation": kind, "states": r.distinct, "wall_s": round(r.wall, 1)}
+            if (cfg, kind) in LETTER:
+                # the counterexample, as action labels (what the directed scenario then does to the real Store)
+                per[cfg]["counterexample"] = [re.sub(r"\s+", " ", a) for a in re.findall(r"/\\ act = (\[.*?\])\n", r.out)][1:]
     never = [a for a in MC_ACTIONS if counts.get(a, 0) == 0]
     if never:
         raise ToolError("model actions never taken (vacuous model check): %s" % never)
@@ -302,14 +321,99 @@ def run_race(rep, wd):
     return res
 
 
-def run_squeeze(wd):
-    """Probe, never a verdict (outside the property's quantifier: the iterator is held by the batch's OWN thread)."""
+def cex_kinds(cex):
+    return [re.search(r'k \|-> "(\w+)"', a).group(1) for a in cex if re.search(r'k \|-> "(\w+)"', a)]
+
+
+def run_squeeze(rep, wd, cex):
+    """KV counterexample of MC_KV_squeeze (.. OutIterOpen(t), Begin(t), Put) on the real Store: a batch below 10 % of the map
+    opened by the thread that holds an iterator, on a map that is more than 90 % full. Control: the same batch, no iterator."""
+    kinds = cex_kinds(cex)
+    if not ("OutIterOpen" in kinds and kinds[-2:] == ["Begin", "Put"] and kinds.index("OutIterOpen") < len(kinds) - 2):
+        raise ToolError("MC_KV_squeeze: unexpected counterexample shape %s" % kinds)
     res = {}
     for mode in ("control", "own_iterator"):
         d = os.path.join(wd, "squeeze")
         p = vlib.harness(["kv", "squeeze", "--dir", d, "--mode", mode], timeout=120, check=False)
         shutil.rmtree(d, ignore_errors=True)
         res[mode] = last_json(p) or {"inconclusive": "rc=%s" % p.returncode}
+    c, o = res["control"], res["own_iterator"]
+    case = {"kind": "squeeze", "model_counterexample": cex, "result": res}
+    if c.get("class") != "ok":
+        if "MAP_FULL" in str(c.get("error")):
+            rep.violation("kv:resize:control:small_batch:mapfull", case, "a %s-byte batch with no other transaction open failed: %s" % (c.get("batch_bytes"), json.dumps(c)))
+        else:
+            raise ToolError("kv squeeze control run failed: %s" % json.dumps(c))
+    elif o.get("class") == "failed" and "MAP_FULL" in str(o.get("error")):
+        rep.violation(SQUEEZE_SIG, case,
+                      "a thread that holds its own store iterator opened a batch on a map that is more than 90 %% full (%s pages of %s bytes): "
+                      "the enlargement that is due cannot take place before the batch (it waits for that iterator), the gate lets the thread "
+                      "through, and a %s-byte write (< 10 %% of the map; fine without the iterator) failed: %s"
+                      % (o.get("pages_before"), o.get("map_before"), o.get("batch_bytes"), o.get("error")))
+    elif o.get("class") != "ok":
+        rep.violation("kv:resize:own_iterator:squeezed_batch:error", case, "batch under the thread's own iterator failed: %s" % json.dumps(o))
+    return res
+
+
+def run_bigbatch(rep, wd, cex):
+    """KV counterexample of MC_KV_bigbatch (Begin, n x Put of a tenth of the map) on the real Store: ONE batch that needs more than
+    what is free. Control: the same volume in 64 KiB batches."""
+    kinds = cex_kinds(cex)
+    n = kinds.count("Put")
+    if kinds[:1] != ["Begin"] or n < 2 or set(kinds[1:]) != {"Put"}:
+        raise ToolError("MC_KV_bigbatch: unexpected counterexample shape %s" % kinds)
+    res = {}
+    for mode in ("control", "single"):
+        d = os.path.join(wd, "bigbatch")
+        p = vlib.harness(["kv", "bigbatch", "--dir", d, "--mode", mode, "--tenths", n], timeout=120, check=False)
+        shutil.rmtree(d, ignore_errors=True)
+        res[mode] = last_json(p) or {"inconclusive": "rc=%s" % p.returncode}
+    c, o = res["control"], res["single"]
+    case = {"kind": "bigbatch", "model_counterexample": cex, "result": res}
+    if c.get("class") != "ok":
+        if c.get("class") == "mapfull":
+            rep.violation("kv:resize:control:small_batches:mapfull", case, "64 KiB batches with nothing else open ran out of space: %s" % json.dumps(c))
+        else:
+            raise ToolError("kv bigbatch control run failed: %s" % json.dumps(c))
+    elif o.get("class") == "mapfull":
+        rep.violation(BIGBATCH_SIG, case,
+                      "ONE batch of %s bytes (%s tenths of the %s-byte map) on a fresh store failed after %s puts / %s bytes: the map is enlarged "
+                      "only between batches (Store::batch -> maybe_resize), never for the batch that needs the space; the same volume in "
+                      "64 KiB batches is fine (map %s -> %s): %s"
+                      % (o.get("batch_bytes"), o.get("tenths_of_map"), o.get("map_before"), o.get("puts_done"), o.get("bytes_written"),
+                         c.get("map_before"), c.get("map_after"), o.get("error")))
+    elif o.get("class") != "ok":
+        rep.violation("kv:batch:larger_than_headroom:error", case, "one large batch failed: %s" % json.dumps(o))
+    return res
+
+
+def run_reopen(rep, wd):
+    """(R) restart of a db that has grown past one chunk: the map comes back as persisted, the first write has its room."""
+    d = os.path.join(wd, "reopen")
+    p = vlib.harness(["kv", "reopen", "--dir", d], timeout=300, check=False)
+    shutil.rmtree(d, ignore_errors=True)
+    res = last_json(p)
+    case = {"kind": "reopen", "result": res}
+    if p.returncode < 0:
+        rep.violation("kv:reopen:crash:signal=%d" % -p.returncode, case, "restart scenario: process killed by signal %d" % -p.returncode)
+        return {"class": "crash"}
+    if res is None:
+        print(p.stdout[-1500:], p.stderr[-1500:])
+        raise ToolError("kv reopen gave no result")
+    cls = res.get("class")
+    if cls == "mapfull":
+        rep.violation("kv:reopen:headroom_lost:first_write_under_own_iterator:mapfull", case,
+                      "after closing and reopening a db of %s pages the map came back with %s bytes (%s before the restart) and the first "
+                      "write of the restarted process - %s bytes under the writer's own iterator, fine right before the restart and far "
+                      "from the 90 %% mark - failed: %s"
+                      % (res.get("data_pages"), res.get("map_after_restart"), res.get("map_before_restart"), res.get("step_bytes"), res.get("error")))
+    elif cls == "map_shrunk":
+        rep.violation("kv:reopen:map_shrunk", case, "the map came back smaller after a restart (%s -> %s bytes; %s data pages)"
+                      % (res.get("map_before_restart"), res.get("map_after_restart"), res.get("data_pages")))
+    elif cls in ("lost", "error"):
+        rep.violation("kv:reopen:first_write:%s" % cls, case, "restart scenario failed: %s" % json.dumps(res))
+    elif cls != "ok" or res.get("resize_due_before_restart") or res.get("map_before_restart", 0) <= 1048576:
+        raise ToolError("kv reopen: scenario not exercised: %s" % json.dumps(res))
     return res
 
 
@@ -556,6 +660,12 @@ def do_replay(rep, wd, obj):
         run_nested(rep, wd, case.get("seed", 1))
     elif kind == "inflight":
         run_inflight(rep, wd)
+    elif kind == "reopen":
+        run_reopen(rep, wd)
+    elif kind == "squeeze":
+        run_squeeze(rep, wd, case["model_counterexample"])
+    elif kind == "bigbatch":
+        run_bigbatch(rep, wd, case["model_counterexample"])
     else:
         raise ToolError("unknown replay kind %r" % kind)
     rep.coverage = {"states": 1, "transitions": 1, "traces_validated_against_impl": 1, "samples": [obj["signature"]]}
@@ -618,12 +728,14 @@ def run(tier, replay):
         nested = [nested, nested2]
         scen_traces.append(("nested", ntrace2))
     inflight, ftrace = (None, None) if rep.violations else run_inflight(rep, wd)
+    reopen = None if rep.violations else run_reopen(rep, wd)
     scen_path, scen_events = (None, 0)
     if not rep.violations:
         scen_path, scen_events = validate_scenarios(rep, wd, scen_traces + [("inflight", ftrace)])
     if rep.violations:
         rep.coverage = {"states": states, "transitions": trans, "traces_validated_against_impl": len(behs),
-                        "samples": [{"nested_scenario": nested, "inflight_scenario": inflight}], "stopped_after": "nested/inflight"}
+                        "samples": [{"nested_scenario": nested, "inflight_scenario": inflight, "reopen_scenario": reopen}],
+                        "stopped_after": "nested/inflight/reopen"}
         return rep.finish()
 
     phase("scenarios")
@@ -656,7 +768,10 @@ def run(tier, replay):
     phase("selftest")
     # (P) stale head-room check with two writers
     race = run_race(rep, wd)
-    squeeze = run_squeeze(wd)
+    # (L) the letter of the property: the model's NoMapFull counterexamples on the real Store (last: they are findings of the
+    # unchanged tree and must not keep the rest from running)
+    squeeze = run_squeeze(rep, wd, per_cfg["MC_KV_squeeze"]["counterexample"])
+    bigbatch = run_bigbatch(rep, wd, per_cfg["MC_KV_bigbatch"]["counterexample"])
     phase("race")
 
     never = [a for a in T_ACTIONS if TCOUNTS.get(a, 0) == 0]
@@ -687,7 +802,9 @@ def run(tier, replay):
         "read_in_flight_scenario": inflight,
         "scenario_trace_events": scen_events,
         "headroom_probe": race,
-        "own_iterator_headroom_probe": squeeze,
+        "own_iterator_squeezed_batch": squeeze,
+        "batch_larger_than_headroom": bigbatch,
+        "restart_scenario": reopen,
         "selftest": st,
         "phase_wall_s": phases,
         "checker_cmd": "tlc mc/MC_KV (%s); h_kv replay; h_kv record + tlc trace/KVTrace; h_kv crash + tlc trace/KVTrace; h_kv gate; h_kv nested + h_kv inflight + tlc trace/KVTrace; h_kv race; careless model variants: %s"
@@ -702,9 +819,10 @@ def run(tier, replay):
         "does not return within 15 more seconds (or a single call stuck for 135 s)",
         "outside observations are validated as 'equal to one committed version inside the call's commit-counter interval' (no wall-clock ordering)",
         "Crash in direction A = close without commit and reopen in the same process; real process kills are direction B(ii)",
-        "a batch opened by a thread that itself holds a store iterator or read while the map is more than 90 % full gets no "
-        "enlargement before it (the enlargement has to wait for that very transaction): the property's quantifier has the iterators "
-        "on OTHER threads; KV!squeezed assumes such a batch fits into what is left (the scenario writes 100 bytes)",
+        "NoMapFull is proved under KV!SmallBatches (a batch allocates <= 10 % of the map) and KV!SqueezedFits (a batch opened under its "
+        "thread's own iterator on a > 90 % full map fits into what is left); without them the model violates it and both "
+        "counterexamples reproduce on the unchanged Store (findings kv:batch:larger_than_headroom:mapfull, "
+        "kv:resize:own_iterator:squeezed_batch:mapfull)",
         "reads in flight are produced with a Readable that stops between two halves of its value; Store::exists cannot be stopped that way",
         "direction A runs reads in flight and iterators on helper threads (no resize there, so the owning thread has no observable effect); "
         "thread ownership at the gate is bound by the directed scenarios (N), (F), (G) only",
